@@ -255,7 +255,7 @@ func BuildMask(mode string) []bool {
 			m[i] = true
 			continue
 		}
-		if s.Pkg == "sim" || strings.HasPrefix(s.Pos, "manager.go:") {
+		if s.Pkg == "sim" || s.Pkg == "pokerface" || s.Pkg == "pot" || s.Pkg == "settlement" || s.Pkg == "combination" || strings.HasPrefix(s.Pos, "manager.go:") {
 			continue // the manager's forwarding code must not shift the schedule between the twin runs of C17
 		}
 		switch {
